@@ -98,6 +98,9 @@ def instances(tier, seed):
             else:
                 for m in range(0, n + 1):
                     add(m, None)
+    # assume/guarantee link: the field-name alphabet the conversions rely on (Tag::try_from(..).unwrap()) is what the real parser delivers
+    out.append({'entry': 'parser-lemma', 'mode': 'lemma', 't': 'field', 'flav': 'sync', 'seg': 'whole', 'cap': 4096, 'v': 1})
+    out.append({'entry': 'parser-lemma', 'mode': 'lemma', 't': 'list', 'flav': 'async', 'seg': 'bytes', 'cap': 8, 'v': 1})
     for kind in ('vec', 'tuple'):
         for n in (1, 2, 3):
             for m in (0, 1, 2, 3, 4):
@@ -173,6 +176,18 @@ def run_instance(payload):
     t0 = time.time()
     entry = payload['entry']; mode = payload['mode']
     TIER[0] = payload.get('tier', 'quick')
+    if mode == 'lemma':
+        from props import parsergroup as PG
+        r = PG.run_for('C03', payload)
+        keep = []
+        for v in r['violations']:
+            if 'field name' in v['what'] or 'reference' in v['what']:
+                v['what'] = 'protocol layer breaks the field-name guarantee the typed layer unwraps on: ' + v['what']
+                v['input']['lemma'] = True
+                keep.append(v)
+        r['violations'] = keep
+        r['classes'] = {'typed value': r['paths']}
+        return r
     kf = known_findings(PROP)
 
     def harness(I):
@@ -276,6 +291,9 @@ def run_instance(payload):
 
 def replay(rec):
     inp = rec.get('input') or rec
+    if inp.get('lemma'):
+        from props import parsergroup as PG
+        return PG.replay_for('C03', rec)
     if inp.get('entry') == 'typedlist':
         out = run_replay(['typedcount', inp['kind'], str(inp['n']), str(inp['m'])])
     else:
